@@ -5,6 +5,10 @@ R02.1 cursor partitions at the slicing layers; R02.2 page = [min,max] slice of t
 agreement in TableAttributes._encode; R02.5 order-preserving column removal computed on the original
 frame; R02.6 display predicate == removal predicate (shared R05.2); R02.7 multi-section order;
 R02.8 the text pipeline of a cell depends only on that cell (no cache across cells).
+
+R02.1, R02.4, R02.5 and R02.7 are decided by scenario execution (tablecore.Scen): the function is
+interpreted on mock frames/pages and what it does with the rows is compared with the property, so the
+rules do not depend on statement shape, local names, helper extraction or loop form.
 """
 from __future__ import annotations
 
@@ -12,38 +16,84 @@ import ast
 
 from ..callgraph import CallGraph
 from ..effects import Shared, stores_in
-from ..pm import dotted, unparse, walk_no_nested
 from ..report import Ctx
 from . import tablecore as T
 
 
 def r02_7(ctx: Ctx) -> None:
+    """multi-section documents: sections are encoded one by one in list order, each from its own frame and body, and
+    concatenated in that order (interpreted on a mock 3-section document); an unequal number of frames and bodies must not
+    be truncated silently.  Then the page order inside one section (tablecore.body_section_order)."""
+    from ..pm import AnalysisError
     pm = ctx.pm
     fi = pm.func("UnifiedRTFEncoder._encode_multi_section")
-    loops = [n for n in walk_no_nested(fi.node) if isinstance(n, ast.For) and "zip(df_list, body_list" in unparse(n.iter)]
-    ok = len(loops) == 1 and "strict=True" in unparse(loops[0].iter) and unparse(loops[0].iter).startswith("enumerate(")
-    t = unparse(fi.node)
-    enc = "section_body_content = self._encode_body_section(temp_document, section_df, section_body)" in t and "all_section_content.extend(section_body_content)" in t
-    upd = "'df': section_df" in t and "'rtf_body': section_body" in t
-    ctx.instance("R02.7", fi.where(), f"multi-section: sections zipped strictly in list order {ok}; each encoded with its own frame/body {enc and upd}")
-    if not (ok and enc and upd):
-        ctx.violation("R02.7", fi.short, "section loop", fi.where(), "sections are not encoded one by one, in list order, each from its own frame and body, and concatenated in that order")
-    if loops:
-        skips = [x for s in loops[0].body for x in ast.walk(s) if isinstance(x, (ast.Continue, ast.Break))]
-        if skips:
-            ctx.violation("R02.7", fi.short, "section skipped", fi.where(loops[0]), "a section can be skipped")
-    e = pm.func("UnifiedRTFEncoder._encode_body_section")
-    te = unparse(e.node)
-    ok2 = "for _i, page in enumerate(pages):" in te or "for page in pages:" in te
-    ok3 = "section_rtf_chunks.extend(chunks)" in te and "return section_rtf_chunks" in te
-    ctx.instance("R02.7", e.where(), f"pages rendered in list order and concatenated: {ok2 and ok3}")
-    if not (ok2 and ok3):
-        ctx.violation("R02.7", e.short, "page loop", e.where(), "pages are not rendered in page order and concatenated")
-    first = "processed_df, original_df, processed_attrs = self.encoding_service.prepare_dataframe_for_body_encoding(df, rtf_body)" in te
-    ctxdf = "df=original_df" in te and "self._apply_data_post_processing(pages, processed_df, rtf_body)" in te
-    ctx.instance("R02.7", e.where(), f"pagination on the original frame, page data re-cut from the reduced frame: {first and ctxdf}")
-    if not (first and ctxdf):
-        ctx.violation("R02.7", e.short, "frames", e.where(), "pagination/rendering no longer use (original frame for grouping, reduced frame for display) consistently")
+    ps = [a.arg for a in fi.node.args.args]
+    services = ("encode_document_start", "encode_font_table", "encode_color_table", "encode_page_header", "encode_page_footer", "encode_page_settings")
+    T.scenario_note(ctx, "R02.7", "UnifiedRTFEncoder._encode_multi_section", "for every content of the sections",
+                    {"sections (frames, bodies)": [(3, 3), (3, 2)], "columns per section": [3, 2, 3], "titles/footnotes/sources": "absent", "evaluations": 2})
+
+    def mkdoc(n_bodies):
+        dfs = [T.Frame(f"s{k}", range(2 + k), ["a", "b", "c"][:3 - (k % 2)]) for k in range(3)]
+        bodies = [T.Obj(f"body{k}", cls="RTFBody", new_page=False, border_bottom=[["x"]]) for k in range(n_bodies)]
+        page = T.Obj("rtf_page", cls="RTFPage", border_first="double", border_last="double", page_title="all", page_footnote="last", page_source="last")
+        return T.Obj("document", cls="RTFDocument", df=dfs, rtf_body=bodies, rtf_column_header=[[T.Obj("h0")], [T.Obj("h1")], [None]], rtf_page=page,
+                     rtf_title=None, rtf_footnote=None, rtf_source=None, rtf_subline=None, rtf_page_header=None, rtf_page_footer=None)
+
+    def sections_in(v, acc):
+        if isinstance(v, T.Mark):
+            if v.name == "_encode_body_section":
+                acc.append(v)
+            else:
+                for x in list(v.args) + list(v.kw.values()):
+                    sections_in(x, acc)
+        elif isinstance(v, (list, tuple)):
+            for x in v:
+                sections_in(x, acc)
+        elif isinstance(v, T.Splat):
+            sections_in(v.v, acc)
+        return acc
+
+    for n_bodies in (3, 2):
+        markers = {"_encode_body_section": "list", "update_row": "scalar", **{k: "scalar" for k in services}}
+        try:
+            if len(ps) != 2:
+                raise AnalysisError("signature (self, document) not recognised")
+            runs = T.Scen(pm, markers=markers).runs(fi, {ps[0]: T.Sym("self", fi.cls), ps[1]: mkdoc(n_bodies)})
+        except AnalysisError as e:
+            ctx.gap("R02.7", f"_encode_multi_section could not be interpreted on a mock {n_bodies}-body document: {e}")
+            continue
+        for _val, r in runs:
+            calls = [m for m in r.trace if m.name == "_encode_body_section"]
+            if n_bodies == 2:
+                ctx.instance("R02.7", fi.where(), f"multi-section with 3 frames and 2 bodies: raises {r.raised!r}; sections encoded {len(calls)}")
+                if not r.raised:
+                    ctx.violation("R02.7", fi.short, "section loop: unequal lists truncated", fi.where(),
+                                  f"with 3 frames and 2 bodies {len(calls)} sections are encoded and the rest is dropped silently (the lists must be zipped strictly)")
+                continue
+            if r.raised:
+                ctx.gap("R02.7", f"_encode_multi_section raises {r.raised} on a mock 3-section document")
+                continue
+            emitted = sections_in(r.ret, [])
+            order = []
+            bad = []
+            for m in emitted:
+                d, f, b = (m.args + [None, None, None])[:3]
+                k = int(f.tag[1:]) if isinstance(f, T.Frame) and f.tag[:1] == "s" and f.tag[1:].isdigit() else None
+                order.append(k)
+                if not (isinstance(b, T.Obj) and b.name == f"body{k}"):
+                    bad.append(f"section {k} is encoded with body {b!r}")
+                if isinstance(d, T.Obj):
+                    if not (isinstance(d.attrs.get("df"), T.Frame) and d.attrs["df"].tag == f"s{k}") or not (isinstance(d.attrs.get("rtf_body"), T.Obj) and d.attrs["rtf_body"].name == f"body{k}"):
+                        bad.append(f"the document copy of section {k} carries df={d.attrs.get('df')!r}, rtf_body={d.attrs.get('rtf_body')!r}")
+                else:
+                    bad.append(f"section {k} is encoded against `{d!r}`, not a per-section copy of the document")
+            ctx.instance("R02.7", fi.where(), f"multi-section: sections reach the output in the order {order} (encoded: {len(calls)}); each with its own frame/body: {not bad}")
+            if order != [0, 1, 2] or len(calls) != 3:
+                ctx.violation("R02.7", fi.short, "section loop", fi.where(), f"sections are not encoded one by one, in list order, and concatenated in that order: sections [0, 1, 2] reach the output as {order}"
+                              + (" (a section can be skipped)" if len(order) < 3 else ""))
+            elif bad:
+                ctx.violation("R02.7", fi.short, "section loop: frame/body", fi.where(), "a section is not encoded from its own frame and body: " + bad[0])
+    T.body_section_order(ctx, "R02.7")
 
 
 def r02_8(ctx: Ctx) -> None:
@@ -74,23 +124,33 @@ def r02_8(ctx: Ctx) -> None:
                 ctx.violation("R02.8", short, "memoised " + d, fi.where(), f"{short} is memoised; unless every input (text, flag) is in the key, one cell's result is served for another")
     ctx.instance("R02.8", pm.func("TextContent._as_rtf").where(), f"{len(reach)} functions of the per-cell text pipeline write no shared state and are not memoised")
     tc = pm.func("TextContent._convert_special_chars")
-    t = unparse(tc.node)
-    first = [s for s in tc.node.body if not (isinstance(s, ast.Expr) and isinstance(s.value, ast.Constant))][0]
-    ok = isinstance(first, ast.Assign) and unparse(first) == "text = self.text"
-    ctx.instance("R02.8", tc.where(), f"text pipeline starts from self.text: {ok}")
-    if not ok:
-        ctx.violation("R02.8", tc.short, "pipeline input", tc.where(first), "the cell's text pipeline does not start from the cell's own text")
+    selfname = tc.node.args.args[0].arg if tc.node.args.args else "self"
+    readers = []
+    for short in sorted({tc.short} | {s for s in cg.reachable([tc.short]) if s.startswith("TextContent.")}):
+        f2 = pm.funcs.get(short)
+        if f2 is None:
+            continue
+        s2 = f2.node.args.args[0].arg if f2.node.args.args else selfname
+        if any(isinstance(n, ast.Attribute) and isinstance(n.ctx, ast.Load) and n.attr == "text" and isinstance(n.value, ast.Name) and n.value.id == s2 for n in ast.walk(f2.node)):
+            readers.append(short)
+    ctx.instance("R02.8", tc.where(), f"text pipeline reads the cell's own text (self.text) in {readers}")
+    if not readers:
+        ctx.gap("R02.8", "TextContent._convert_special_chars: no read of the cell's own text (self.text) could be re-identified in the text pipeline")
 
 
 def check(ctx: Ctx) -> None:
     ctx.explain(
-        "Structural necessary conditions for row/cell preservation: R02.1 the three slicing layers are cursor partitions "
-        "(post-processing re-slice: slice(cursor, h); cursor += h twice; _render_body: [prev:boundary) segments plus tail, cursor "
-        "from 0, row_offset = slice lower bound); R02.2/R02.3 via C04's page-slice and page-assignment tables; R02.4 cell (i,j) of "
-        "_encode is df.row(i)[j] with null->'' else str(), width col_widths[j], one cell per (i,j), one row per i; R02.5 removal "
-        "keeps the frame's own column order and computes positions on the original frame; R02.6 via C05's three-site predicate "
-        "table; R02.7 sections/pages in list order; R02.8 the per-cell text pipeline touches no shared state.")
-    ctx.assume("polars slice/select/row return the rows/columns they are documented to return")
+        "Necessary conditions for row/cell preservation, decided by interpreting the functions of the table pipeline on mock tables whose "
+        "rows, columns and attribute entries are distinguishable (no repository code runs; sa/dtab.py evaluates the syntax trees): "
+        "R02.1 _apply_data_post_processing re-cuts mock pages as consecutive slices of the reduced (with group_by: restored) frame; "
+        "_render_body hands every row of a mock page with internal group boundaries to _encode exactly once, in order, with "
+        "row_offset = position of the segment's first row, under every valuation of the configuration it reads; R02.2/R02.3 via C04's "
+        "page-slice and page-assignment tables; R02.4 _encode on a mock segment with nulls in a string and in a numeric column: one "
+        "table row per data row, cell (i,j) shows df[i,j] (null -> '', else str) and ends at col_widths[j]; R02.5 column removal on a "
+        "mock frame with two removed columns; R02.6 via C05's three-site predicate table; R02.7 sections and pages reach the output "
+        "in list order, each section from its own frame/body; R02.8 the per-cell text pipeline touches no shared state.")
+    ctx.assume("polars slice/head/tail/select/drop/row/fill_null return the rows/columns they are documented to return (fill_null(value) only fills columns whose dtype accepts the value)")
+    ctx.assume("BroadcastValue's `value` validator (_to_nested_list) normalises scalars, flat lists, tuples and frames to nested lists as modelled in tablecore.nested_list_form")
     ctx.undecided("that the concatenated page rows equal the input for concrete frames (row->page arithmetic is run-time); cell text after escaping/conversion (C10/C11)")
     T.cursor_post_processing(ctx, "R02.1")
     T.cursor_render_body(ctx, "R02.1")
